@@ -83,6 +83,12 @@ fn compartmentalize_map(map: &mut Mapping) {
     }
 }
 
+/// A mapping that only exists because a `<any>` key was compartmentalized
+/// below it. It addresses deeper modules and is never a property itself.
+fn is_wildcard_container(value: &Value) -> bool {
+    matches!(value, Value::Mapping(map) if map.contains_key(ANY))
+}
+
 impl Props {
     pub fn update_from(&mut self, base: &Value, path: &[&str]) {
         if path.is_empty() {
@@ -91,7 +97,7 @@ impl Props {
                     let Value::String(k) = k else {
                         continue;
                     };
-                    if k.contains(ANY) {
+                    if k.contains(ANY) || is_wildcard_container(v) {
                         continue;
                     }
                     self.set(k.clone(), v.clone());
@@ -127,6 +133,9 @@ impl Props {
                 let Some(entry) = map.get(matching_key) else {
                     continue;
                 };
+                if is_wildcard_container(entry) {
+                    continue;
+                }
                 let remaining = &matching_key[(key.len() + 1)..];
                 self.set(remaining.to_string(), entry.clone());
             }
